@@ -25,6 +25,8 @@ package objects
 //@   ensures cap(d.buf) <= max(old(cap(d.buf)), 2*n)
 //@   ensures d.buf == old(d.buf) || fresh(d.buf)
 //@   ensures allocated <= old(allocated) + 4*n
+//@   ensures (d.buf == old(d.buf) && allocated == old(allocated)) || (cap(d.buf) >= 2*old(cap(d.buf)) && allocated <= old(allocated) + 2*cap(d.buf) && fresh(d.buf) && cap(d.buf) < 2*n)
+//@   loop 1 invariant (cap(d.buf) == old(cap(d.buf)) && d.buf == old(d.buf)) || (cap(d.buf) >= 2*old(cap(d.buf)) && fresh(d.buf) && cap(d.buf) < 2*n)
 //@   loop 1 invariant cap(d.buf) >= 1 && cap(d.buf) >= old(cap(d.buf)) && len(d.buf) >= old(len(d.buf))
 //@   loop 1 invariant cap(d.buf) <= max(old(cap(d.buf)), 2*n) && (d.buf == old(d.buf) || fresh(d.buf))
 //@   loop 1 invariant allocated <= old(allocated) + 2*cap(d.buf) && (cap(d.buf) == old(cap(d.buf)) ==> allocated == old(allocated))
@@ -33,9 +35,17 @@ package objects
 //@ func (*StrListDecoder).Read
 //@   props C17 C18
 //@   requires cap(d.buf) >= 4 && len(d.buf) >= 4 && r != nil
-//@   modifies d.*, d.buf[:], d.strs[:]
+//@   modifies d.*, d.buf[:], d.strs[:], stream(r)
 //@   loop 1 invariant cap(d.buf) >= 4 && len(d.buf) >= 4 && 0 <= i && i <= count && (d.buf == old(d.buf) || fresh(d.buf))
 //@   loop 1 invariant fresh(sl) || (reg(sl) == reg(old(d.strs)) && off(sl) == off(old(d.strs)) && cap(sl) == cap(old(d.strs)))
+//@   ensures [C17] allocated <= old(allocated) + 1000000 + 81*d.pos
+//@   ensures [C17] result2 == nil ==> result0 == d.pos && result0 >= 4 && pos(r) == old(pos(r)) + result0
+//@   loop 1 invariant [C17] pos(r) == old(pos(r)) + d.pos
+//@   ensures cap(d.buf) >= 4 && len(d.buf) >= 4
+//@   loop 1 invariant [C17] 0 <= d.pos && 4 + 2*i <= d.pos && d.pos <= 4 + 65537*i && len(sl) == i
+//@   loop 1 invariant [C17] allocated <= old(allocated) + ite(fresh(sl), 80*cap(sl), 0) + ite(fresh(d.buf), 4*cap(d.buf), 0) + d.pos
+//@   loop 1 invariant [C17] fresh(sl) ==> cap(sl) <= max(4096, 2*i + 1024)
+//@   loop 1 invariant [C17] fresh(d.buf) ==> cap(d.buf) <= 131070
 //@   loop 1 decreases count - i
 
 //@ func (*UintListDecoder).readUint32
@@ -45,7 +55,7 @@ package objects
 //@   ensures [C18] err == nil ==> result0 == sbe32(r, old(pos(r))) && pos(r) == old(pos(r)) + 4 && d.pos == old(d.pos) + 4
 //@   ensures [C18] streamClean(r) && old(avail(r)) >= 4 ==> err == nil
 //@   ensures err != nil ==> d.pos == old(d.pos)
-//@   ensures d.buf == old(d.buf)
+//@   ensures d.buf == old(d.buf) && allocated == old(allocated)
 //@   replay NewUintListDecoder(false).readUint32($r)
 
 //@ func (*UintListDecoder).Read
@@ -57,6 +67,9 @@ package objects
 //@   loop 1 invariant len(d.buf) == 4 && i <= n && len(sl) == i && d.pos == 4 + 4*i && pos(r) == old(pos(r)) + 4 + 4*i && n == sbe32(r, old(pos(r)))
 //@   loop 1 invariant forall(j, 0, i, sl[j] == sbe32(r, old(pos(r)) + 4 + 4*j))
 //@   loop 1 invariant fresh(sl) || (reg(sl) == reg(old(d.sl)) && off(sl) == off(old(d.sl)) && cap(sl) == cap(old(d.sl)))
+//@   ensures [C17] allocated <= old(allocated) + 81920 + 10*(pos(r) - old(pos(r)))
+//@   loop 1 invariant [C17] !fresh(sl) ==> allocated == old(allocated)
+//@   loop 1 invariant [C17] fresh(sl) ==> allocated <= old(allocated) + 20*cap(sl) && cap(sl) <= max(4096, 2*i + 1024)
 //@   loop 1 decreases n - i
 //@   replay NewUintListDecoder(false).Read($r)
 
@@ -129,3 +142,13 @@ package objects
 //@   requires s != nil && len(compressed) <= 1099511627776 && cap(blkPrefix) < len(blkPrefix) + 16
 //@   callsite saveObj: len(k) == len(blkPrefix) + 16 && bytesAt(k, 0, blkPrefix) && sid(k[len(blkPrefix):]) == hashid(content) && v == compressed
 //@   ensures err == nil ==> len(sum) == 16 && sid(sum) == hashid(content)
+
+// A block is read row by row; nothing is reserved on the strength of the row count alone (at most 4096 slots), and what
+// is allocated stays linear in the bytes consumed.
+//@ func ReadBlockFrom
+//@   props C17
+//@   requires r != nil
+//@   ensures [C17] result2 == nil ==> allocated <= old(allocated) + 200000 + 250200*result0
+//@   loop 1 invariant [C17] dec != nil && cap(dec.buf) >= 4 && len(dec.buf) >= 4 && 0 <= i && i <= n && len(blk) == i && 4 + 4*i <= total && fresh(blk) && total == pos(r) - old(pos(r))
+//@   loop 1 invariant [C17] allocated <= old(allocated) + 100 + 120*cap(blk) + 1000000*i + 81*total && cap(blk) <= max(4096, 2*i + 1024)
+//@   loop 1 decreases n - i
